@@ -152,7 +152,8 @@ def analyse(fn: ast.FunctionDef, fold: Optional[Callable[[ast.AST], Any]] = None
         raise AlgebraError("torsion function does not take four points")
     pts = {p: Vec(var(f"{p}{ax}") for ax in "xyz") for p in pnames}
     at = [c for c in ast.walk(fn) if isinstance(c, ast.Call) and ast.unparse(c.func).endswith(("atan2", "arctan2"))]
-    others = [c for c in ast.walk(fn) if _angle_call(c) and not any(c is a for a in at)]
+    in_guard_tests = {id(c) for st in ast.walk(fn) if is_guard(st) for c in ast.walk(st.test)}  # thresholds of early returns (`arcsin(s) < ...`) are the guard rule's
+    others = [c for c in ast.walk(fn) if _angle_call(c) and not any(c is a for a in at) and id(c) not in in_guard_tests]
     if len(at) != 1 or len(at[0].args) != 2 or others:
         raise NotOneAtan2("expected exactly one atan2(y, x)" + (f" and no other inverse trigonometric / sign function (found `{ast.unparse(others[0])[:40]}`)" if others and len(at) == 1 else ""))
     env: Dict[str, Any] = dict(pts)
